@@ -1277,8 +1277,14 @@ func TestVerif_C19(t *testing.T) {
 			only[v] = true
 		}
 	}
-	part := vfRunSharded(t, env, "TestVerif_C19", n, shards, func(part *vfPart, i int) {
+	nLease := env.N(4, 120)
+	part := vfRunSharded(t, env, "TestVerif_C19", n+nLease, shards, func(part *vfPart, i int) {
 		if len(only) > 0 && !only[i] {
+			return
+		}
+		if i >= n {
+			// lease cases (vfc19lease_test.go): short expiry, the lease of a hold granted from the queue
+			vfC19LeaseCase(env, part, i-n, i)
 			return
 		}
 		if rep, _ := strconv.Atoi(os.Getenv("VERIF_C19_REPEAT")); rep > 1 && env.Replay == "" { // debugging aid
@@ -1301,17 +1307,17 @@ func TestVerif_C19(t *testing.T) {
 		vfC19Cl.follower.Kill()
 	}
 	spec := &vfSpec{Prop: "C19", Level: "exploration", NontrivSet: "nontrivial",
-		Rule: "case i: primitive = (lock, rlock, sem, flow, rwlock, prio, event)[i mod 7]; PRNG splitmix(seed,'C19',i) draws n in 1..5, 2..64 goroutines on 1..8 client.Client connections, 1..3 keys and a plan of operations per goroutine (time-out kind long / try / milliseconds / 1 s, hold shape, herd = holder waits for k queued waiters seen by the server-side census before releasing); rounds (i div 7) mod 4 == 1 go through the follower's forwarding port, rounds mod 5 == 4 force a reconnect (abrupt or half-open) through a TCP proxy while a goroutine of that connection is inside an acquire call; non-trivial = contention was observed in the case (queued waiters seen by the census, a time-out, or an acquire that started while the key was at capacity); distinct = hash of (primitive, n, goroutines, connections, keys, route, reconnect mode)",
+		Rule: "case i: primitive = (lock, rlock, sem, flow, rwlock, prio, event)[i mod 7]; PRNG splitmix(seed,'C19',i) draws n in 1..5, 2..64 goroutines on 1..8 client.Client connections, 1..3 keys and a plan of operations per goroutine (time-out kind long / try / milliseconds / 1 s, hold shape, herd = holder waits for k queued waiters seen by the server-side census before releasing); rounds (i div 7) mod 4 == 1 go through the follower's forwarding port, rounds mod 5 == 4 force a reconnect (abrupt or half-open) through a TCP proxy while a goroutine of that connection is inside an acquire call; non-trivial = contention was observed in the case (queued waiters seen by the census, a time-out, or an acquire that started while the key was at capacity); distinct = hash of (primitive, n, goroutines, connections, keys, route, reconnect mode)" + vfC19LeaseRule,
 		Assumptions: []string{
 			"real TCP on loopback: leader in-process in every shard process, follower = the test binary re-executed in node mode with SLAVEOF; clients are the repository's client.Client",
 			"a hold is definite from the return of a successful acquire (timestamp taken after the call) to the call of its release (timestamp taken before the call), both on one atomic logical clock; calls without an answer (connection lost, client-side time-out) are neither held nor not held",
-			"expiry of holds is 600 s; a case that ran longer than 240 s is discarded as inconclusive",
+			"expiry of holds is 600 s; a case that ran longer than 240 s is discarded as inconclusive (the lease cases use 3-5 s and judge by A's Unlock call + E)",
 			"PriorityLock: the waiters listed by the census taken by the holder before it calls Unlock are 'known queued'; the next holder must not have a lower priority than a listed waiter that later acquired; a next holder that was not listed (a later arrival that found the lock momentarily free) is counted, not judged",
 			"RLock: 'as many unlocks as locks' is also judged at quiescence: after a case without unknown outcomes every key must be free for a fresh try-lock",
 			"Event: a Wait success is a violation iff its whole call..return interval lies after the return of a successful Clear (or, for a default-clear event, the start of the case) and before the call of the next Set of the (sequential) controller of that key",
 			"Semaphore.Release frees the oldest permit (no lock id), so a release whose outcome is unknown is never repeated",
 		},
-		Floors: []string{"contended_cases", "cases_via_follower_contended", "reconnects_performed", "reconnect_cut_while_waiting", "sem_reached_n", "flow_reached_n", "rwlock_readers_overlapped", "rwlock_writer_excluded_waiters", "prio_handover_multi_priority", "event_waits_woken_by_set", "event_waits_timed_out_while_clear", "rlock_nested_reentries", "rlock_partial_unlock_probed", "pipelined_goroutines_on_one_conn", "legit_timeouts"}}
+		Floors: []string{"contended_cases", "cases_via_follower_contended", "reconnects_performed", "reconnect_cut_while_waiting", "sem_reached_n", "flow_reached_n", "rwlock_readers_overlapped", "rwlock_writer_excluded_waiters", "prio_handover_multi_priority", "event_waits_woken_by_set", "event_waits_timed_out_while_clear", "rlock_nested_reentries", "rlock_partial_unlock_probed", "pipelined_goroutines_on_one_conn", "legit_timeouts", "lease_scenarios_judged", "lease_waiters_granted_from_the_queue"}}
 	vfFinish(t, env, spec, part, start)
 }
 
